@@ -655,10 +655,16 @@ def unit_of_an_edit(spec, st, obs, rs, rng):
         try:
             setattr(rs.objs[n], prm, realsys.mkq(new_q))
             live_obs = {key: v for key, v in rs.observe().items() if key in obs2}
-            why = obs_diff(live_obs, {key: v for key, v in obs2.items() if key in live_obs})
+            sens = ceil_sensitive(spec2, obs2) | ceil_sensitive(spec2, live_obs)
+            if sens:
+                sens |= {"__system__"}
+            why = obs_diff(drop_objects(live_obs, sens), drop_objects({key: v for key, v in obs2.items() if key in live_obs}, sens))
             setattr(rs.objs[n], prm, realsys.mkq(old_q))
             back = {key: v for key, v in rs.observe().items() if key in obs}
-            why_back = obs_diff(back, {key: v for key, v in obs.items() if key in back})
+            sens = ceil_sensitive(spec, obs) | ceil_sensitive(spec, back)
+            if sens:
+                sens |= {"__system__"}
+            why_back = obs_diff(drop_objects(back, sens), drop_objects({key: v for key, v in obs.items() if key in back}, sens))
         except Exception as e:  # noqa
             break
         if why:
@@ -681,6 +687,15 @@ def scaling(spec, st, obs, rs, rng):
     from harness import kcalc
     if st != "ok":
         return [], 0
+
+    def odiff(a, b, **kw):
+        """obs_diff without the objects whose instance count sits on a ceil discontinuity in either build (a raw need within
+        1e-9 of an integer — typically the float residue 1e-18 of a storage whose data has all expired: 0 or 1 instance
+        from one build of the same inputs to the next), and then without the system totals they feed"""
+        sens = ceil_sensitive(spec, a) | ceil_sensitive(spec, b)
+        if sens:
+            sens |= {"__system__"}
+        return obs_diff(drop_objects(a, sens), drop_objects(b, sens), **kw)
     servers, storages, networks = reachable(spec)
     pats = spec["system"]["usage_patterns"]
     k = rng.choice([2.0, 3.0, 0.5, 1.7])
@@ -759,7 +774,7 @@ def scaling(spec, st, obs, rs, rng):
             if obs2 != "neg-storage":      # D4 (float cancellation in the cumulative storage need) is C04's finding
                 vs.append(viol("C12", f"scaled-build-fails:{param}", f"×{k} on {name}.{param}: {obs2}"))
             continue
-        why = obs_diff(drop_objects(obs, {"__system__"}), drop_objects(obs2, {"__system__"}), scale_of=expected)
+        why = odiff(drop_objects(obs, {"__system__"}), drop_objects(obs2, {"__system__"}), scale_of=expected)
         if why:
             vs.append(viol("C12", f"{kind}.{param}", f"×{k} on {name}.{param}: {why}"))
     # the same multiplication made in place on the live model must give what a model built with the multiplied
@@ -782,10 +797,10 @@ def scaling(spec, st, obs, rs, rng):
             try:
                 setattr(rs.objs[name], param, realsys.mkq(spec2[kind][name][param]))
                 live_obs = {key: v for key, v in rs.observe().items() if key in obs2}
-                why = obs_diff(live_obs, obs2)
+                why = odiff(live_obs, obs2)
                 setattr(rs.objs[name], param, realsys.mkq(old_q))
                 back = {key: v for key, v in rs.observe().items() if key in obs}
-                why_back = obs_diff(back, obs)
+                why_back = odiff(back, obs)
             except Exception as e:  # noqa
                 vs.append(viol("C12", f"in-place-raises:{kind}.{param}", f"×{k} on {name}.{param}: {type(e).__name__}: {e}"))
                 break
@@ -830,7 +845,7 @@ def scaling(spec, st, obs, rs, rng):
         if not bad:
             rest1 = {key: v for key, v in obs.items() if (key[0], key[1]) not in touched and key[0] != "__system__"}
             rest2 = {key: v for key, v in obs2.items() if (key[0], key[1]) not in touched and key[0] != "__system__"}
-            bad = obs_diff(rest1, rest2)
+            bad = odiff(rest1, rest2)
         if bad:
             vs.append(viol("C12", f"device-share:{param}", f"×{k} on {d}.{param} (one of the {len(spec['patterns'][pn]['devices'])} devices of {pn}): {bad}"))
     # all traffic × k: every load-proportional quantity × k
@@ -852,7 +867,7 @@ def scaling(spec, st, obs, rs, rng):
         skip = {o for o in spec["servers"] if spec["servers"][o]["server_type"] != "serverless"} | set(spec["storages"]) | {"__system__"}
         a1 = {key: v for key, v in obs.items() if not (key[0] in skip and (key[0], key[1]) not in exp)}
         a3 = {key: v for key, v in obs3.items() if not (key[0] in skip and (key[0], key[1]) not in exp)}
-        why = obs_diff(a1, a3, scale_of=exp)
+        why = odiff(a1, a3, scale_of=exp)
         if why:
             vs.append(viol("C12", "all-traffic", f"all starts ×{k}: {why}"))
         # the same multiplication made in place, usage pattern after usage pattern, on the live model: what a model
@@ -863,17 +878,20 @@ def scaling(spec, st, obs, rs, rng):
                 for pn in pats:
                     rs.objs[pn].hourly_usage_journey_starts = realsys.mk_hourly(spec3["patterns"][pn]["hourly_usage_journey_starts"])
                 live_obs = {key: v for key, v in rs.observe().items() if key in obs3}
-                why_live = obs_diff(live_obs, {key: v for key, v in obs3.items() if key in live_obs})
+                why_live = odiff(live_obs, {key: v for key, v in obs3.items() if key in live_obs})
                 for pn in pats:
                     rs.objs[pn].hourly_usage_journey_starts = realsys.mk_hourly(spec["patterns"][pn]["hourly_usage_journey_starts"])
                 back = {key: v for key, v in rs.observe().items() if key in obs}
-                why_back = obs_diff(back, {key: v for key, v in obs.items() if key in back})
+                why_back = odiff(back, {key: v for key, v in obs.items() if key in back})
                 if why_live:
                     vs.append(viol("C12", "all-traffic-in-place", f"all starts ×{k} edited in place differ from the model built with them: {why_live}"))
                 elif why_back:
                     vs.append(viol("C12", "all-traffic-in-place-undo", f"all starts ×{k} then ÷{k} in place: {why_back}"))
             except Exception as e:  # noqa
-                vs.append(viol("C12", "all-traffic-in-place-raises", f"all starts ×{k} in place: {type(e).__name__}: {str(e)[:200]}"))
+                # D4 (a float residue below zero in the cumulative storage need of a storage without deleting jobs) is C04's
+                # finding, met here by an edit instead of a build: inconclusive for C12
+                if "negative cumulative storage need" not in str(e):
+                    vs.append(viol("C12", "all-traffic-in-place-raises", f"all starts ×{k} in place: {type(e).__name__}: {str(e)[:200]}"))
     elif obs3 not in ("fixed-instances", "neg-storage"):
         vs.append(viol("C12", "all-traffic-build-fails", f"all starts ×{k}: {obs3}"))
     return vs, ev
